@@ -26,8 +26,28 @@ def _terms(ex):
     return ts
 
 
+def precondition_witness(ex, tries=6, seed=0):
+    """vacuity guard when the solver cannot decide the quantified precondition: is there a small concrete heap on
+    which every requires clause is proved to hold?  (no code is run) -> True / False"""
+    for m in draw_models(ex, tries, seed, 3):
+        try:
+            res, conc, _s = creplay.prepare(ex, m)
+        except Exception:
+            continue
+        if conc is not None:
+            return True
+    return False
+
+
 def run(ex, n_inputs=40, seed=0, bound=3):
     """-> dict(evaluations, violations=[replay result], inconclusive)"""
+    out = {"evaluations": 0, "violations": [], "inconclusive": 0, "pre_not_met": 0, "bound": "region lengths <= %d, "
+           "quantified preconditions instantiated on {-1..%d}, %d solver-drawn inputs, seed %d" % (bound + 2, bound + 1, n_inputs, seed)}
+    models = draw_models(ex, n_inputs, seed, bound)
+    return _run_models(ex, models, out)
+
+
+def draw_models(ex, n_inputs, seed, bound):
     rnd = random.Random(seed)
     key = (ex.fname, ex.func)
     c0 = ex.contract
@@ -47,8 +67,6 @@ def run(ex, n_inputs=40, seed=0, bound=3):
                 seen.add(sym.get_id())
                 s.add(sym <= bound + 2)
     terms = _terms(ex)
-    out = {"evaluations": 0, "violations": [], "inconclusive": 0, "pre_not_met": 0, "bound": "region lengths <= %d, "
-           "quantified preconditions instantiated on {-1..%d}, %d solver-drawn inputs, seed %d" % (bound + 2, bound + 1, n_inputs, seed)}
     vals = [-1, 0, 1, 2, 3, 4]
     tries = 0
     models = []
@@ -73,6 +91,10 @@ def run(ex, n_inputs=40, seed=0, bound=3):
             models.append(s.model())
         while s.num_scopes() > 0:
             s.pop()
+    return models
+
+
+def _run_models(ex, models, out):
     # all inputs through one compiled harness (each in its own forked child)
     for start in range(0, len(models), 60):
         chunk = models[start:start + 60]
